@@ -145,6 +145,9 @@ def run_scenario(sym, tname: str, n_ticks: int, *, in1_steps=True, durations_sym
     a = b = None
     if "In1" in pc and sym.shard.get("in1") is not None:
         a, b = sym.shard["in1"]                    # concrete trajectory chosen by the shard
+    elif "In1" in pc and sym.shard.get("in1_mode") == "up":
+        a = sym.int("in1_up", 0, n_ticks)          # In1 becomes 1 at a solver-chosen tick and stays 1
+        b = n_ticks + 1
     elif in1_steps and "In1" in pc:
         a = sym.int("in1_up", 0, n_ticks)          # In1 becomes 1 at tick a ...
         b = sym.int("in1_down", 0, n_ticks + 1)    # ... and 0 again at tick b (b <= a: never 1)
@@ -372,6 +375,8 @@ def check_trace(sym, sc: Scenario, pcode: str, want: set, forced_ids=(), cancell
                     if "C02" in want:
                         sym.check(False, f"C02|repeated-or-out-of-order|flow={kind}",
                                   f"{k} {n!r} at tick {t} is repeated or out of source order in the {kind} flow; trace {mark_tick}")
+                    elif "C04" in want and kind == "watch":
+                        sym.check(False, "C04|watch-body-ran-again", f"{k} {n!r} of the Watch body at tick {t} is a repeat: a Watch runs once; trace {mark_tick}")
                     break
             _check_skips(sym, want, S, ptr, j, ended_by, t, f"{kind}:{ln.arg if ln else ''}")
             blocks = S[j][2]
